@@ -152,7 +152,7 @@ func runC11(c *fw.Ctx) {
 		c.Distinct(p.input())
 	})
 	c.Cases("programs", c.N(1500, 600000), false, func(i int, r *rng.R) {
-		p := &prog{c: c, r: r, h: &model.Heap{}, lazy: i%2 == 1}
+		p := &prog{c: c, r: r, h: &model.Heap{}, lazy: i%2 == 1, ctx: i%3 == 0}
 		guard(c, p.input, func() {
 			rootKind := spec.List
 			if r.Bool() {
